@@ -3564,11 +3564,16 @@ class DecVar(Vars):
     def evtadapt(self, scens):
 
         if isinstance(scens, Scen):
-            events = scens.series
+            # a Scen object carries scenario positions, not labels
+            positions = scens.series
+            positions = ([positions] if isinstance(positions, Real)
+                         else list(positions))
+            events = list(self.dro_model.series_scen.index[positions])
         else:
             events = scens
-        # events = list(events) if isinstance(events, Iterable) else [events]
-        events = [events] if isinstance(events, (str, Real)) else list(events)
+            # events = list(events) if isinstance(events, Iterable) else [events]
+            events = ([events] if isinstance(events, (str, Real))
+                      else list(events))
 
         for event in events:
             index = self.dro_model.series_scen[event]
